@@ -58,6 +58,63 @@ type derefOb struct {
 	contexts              int
 }
 
+// decodedStructFields adds to optionalFields the pointer-typed fields of module
+// structs that are filled by a JSON/CBOR decoder: absent members leave them nil.
+func decodedStructFields(c *Check) map[string]string {
+	out := map[string]string{}
+	decoders := map[string]int{
+		"encoding/json.Unmarshal": 1, "(*encoding/json.Decoder).Decode": 0,
+		"github.com/fxamacker/cbor/v2.Unmarshal": 1, "(github.com/fxamacker/cbor/v2.DecMode).Unmarshal": 1,
+		"(*github.com/fxamacker/cbor/v2.Decoder).Decode": 0,
+	}
+	var addStruct func(t types.Type, why string, depth int)
+	addStruct = func(t types.Type, why string, depth int) {
+		if depth > 3 {
+			return
+		}
+		n, ok := t.(*types.Named)
+		if !ok || n.Obj().Pkg() == nil || !strings.HasPrefix(n.Obj().Pkg().Path(), c.P.ModPath) {
+			return
+		}
+		st, ok := n.Underlying().(*types.Struct)
+		if !ok {
+			return
+		}
+		for i := 0; i < st.NumFields(); i++ {
+			f := st.Field(i)
+			switch ft := f.Type().Underlying().(type) {
+			case *types.Pointer:
+				out[c.P.typeStr(n)+"."+f.Name()] = "nil when the member is absent from the decoded " + why
+			case *types.Struct:
+				addStruct(f.Type(), why, depth+1)
+				_ = ft
+			}
+		}
+	}
+	for _, fs := range c.P.productFuncs() {
+		info := fs.Pkg.TypesInfo
+		ast.Inspect(fs.Decl.Body, func(nd ast.Node) bool {
+			call, ok := nd.(*ast.CallExpr)
+			if !ok {
+				return true
+			}
+			fn, ok := typeutil.Callee(info, call).(*types.Func)
+			if !ok {
+				return true
+			}
+			idx, ok := decoders[fn.FullName()]
+			if !ok || idx >= len(call.Args) {
+				return true
+			}
+			if pt, ok := info.TypeOf(call.Args[idx]).Underlying().(*types.Pointer); ok {
+				addStruct(pt.Elem(), "document ("+fn.Name()+" in "+fs.Obj.Name()+")", 0)
+			}
+			return true
+		})
+	}
+	return out
+}
+
 func censusSites(c *Check) *siteScan {
 	sc := &siteScan{c: c, sites: map[token.Pos]*astSite{}, derefs: map[string]*derefOb{}}
 	for _, fs := range c.P.productFuncs() {
@@ -661,9 +718,95 @@ func (p *Prog) counterLoopBound(obj types.Object) ast.Expr {
 					}
 					return call.Args[0]
 				}
+				// bound(e) = (Y, off): e equals len(Y)+off, looking through locals that are
+				// defined once and never reassigned
+				var bound func(e ast.Expr, depth int) (ast.Expr, int, bool)
+				bound = func(e ast.Expr, depth int) (ast.Expr, int, bool) {
+					if depth > 3 {
+						return nil, 0, false
+					}
+					e = ast.Unparen(e)
+					if y := lenArg(e); y != nil {
+						return y, 0, true
+					}
+					if be, ok := e.(*ast.BinaryExpr); ok && (be.Op == token.SUB || be.Op == token.ADD) {
+						if tv := info.Types[be.Y]; tv.Value != nil {
+							if k, isInt := intConst(constTerm(tv.Value)); isInt {
+								if y, off, ok := bound(be.X, depth+1); ok {
+									if be.Op == token.SUB {
+										return y, off - int(k), true
+									}
+									return y, off + int(k), true
+								}
+							}
+						}
+						return nil, 0, false
+					}
+					if id, ok := e.(*ast.Ident); ok {
+						v, isVar := info.Uses[id].(*types.Var)
+						if !isVar || isPkgLevel(v) {
+							return nil, 0, false
+						}
+						var def ast.Expr
+						ndef, bad := 0, false
+						ast.Inspect(fs.Decl.Body, func(m ast.Node) bool {
+							switch x := m.(type) {
+							case *ast.AssignStmt:
+								for i, l := range x.Lhs {
+									lid, ok := l.(*ast.Ident)
+									if !ok || (info.Defs[lid] != v && info.Uses[lid] != v) {
+										continue
+									}
+									ndef++
+									if len(x.Rhs) == len(x.Lhs) {
+										def = x.Rhs[i]
+									} else {
+										bad = true
+									}
+								}
+							case *ast.IncDecStmt:
+								if lid, ok := x.X.(*ast.Ident); ok && info.Uses[lid] == v {
+									bad = true
+								}
+							case *ast.UnaryExpr:
+								if lid, ok := x.X.(*ast.Ident); ok && x.Op == token.AND && info.Uses[lid] == v {
+									bad = true
+								}
+							}
+							return true
+						})
+						if ndef != 1 || bad || def == nil {
+							return nil, 0, false
+						}
+						y, off, ok := bound(def, depth+1)
+						if !ok {
+							return nil, 0, false
+						}
+						// the length was taken earlier: the collection must not be reassigned at all
+						if r := rootIdent(y); r != nil {
+							ro := info.Uses[r]
+							reassigned := false
+							ast.Inspect(fs.Decl.Body, func(m ast.Node) bool {
+								if x, ok := m.(*ast.AssignStmt); ok {
+									for _, l := range x.Lhs {
+										if lid := rootIdent(l); lid != nil && info.Uses[lid] == ro && ro != nil {
+											reassigned = true
+										}
+									}
+								}
+								return !reassigned
+							})
+							if reassigned {
+								return nil, 0, false
+							}
+						}
+						return y, off, true
+					}
+					return nil, 0, false
+				}
 				var Y ast.Expr
 				switch {
-				case post.Tok == token.INC && cond.Op == token.LSS:
+				case post.Tok == token.INC && (cond.Op == token.LSS || cond.Op == token.LEQ):
 					tv := info.Types[as.Rhs[0]]
 					if tv.Value == nil {
 						return true
@@ -671,19 +814,22 @@ func (p *Prog) counterLoopBound(obj types.Object) ast.Expr {
 					if k, ok := intConst(constTerm(tv.Value)); !ok || k < 0 {
 						return true
 					}
-					Y = lenArg(cond.Y)
+					y, off, ok := bound(cond.Y, 0)
+					if !ok {
+						return true
+					}
+					// i < len(Y)+off with off <= 0, or i <= len(Y)+off with off <= -1: i stays below len(Y);
+					// the loop is the range over Y exactly when it visits every index
+					if (cond.Op == token.LSS && off == 0) || (cond.Op == token.LEQ && off == -1) {
+						Y = y
+					}
 				case post.Tok == token.DEC && cond.Op == token.GEQ:
 					if tv := info.Types[cond.Y]; tv.Value == nil || tv.Value.String() != "0" {
 						return true
 					}
-					be, ok := ast.Unparen(as.Rhs[0]).(*ast.BinaryExpr)
-					if !ok || be.Op != token.SUB {
-						return true
+					if y, off, ok := bound(as.Rhs[0], 0); ok && off == -1 {
+						Y = y
 					}
-					if tv := info.Types[be.Y]; tv.Value == nil || tv.Value.String() != "1" {
-						return true
-					}
-					Y = lenArg(be.X)
 				}
 				if Y == nil {
 					return true
@@ -889,6 +1035,9 @@ func syncMapStores(c *Check, global string) (keys, vals []string, n int) {
 func checkC09(c *Check) {
 	c.Explain = "C09: crash/hang freedom over all inputs is NOT decided for the decoders in the dependencies (encoding/json, cbor, go-cose, jwt, crypto/x509, x/crypto/ocsp, cryptobyte). Decided are the repository's own panic-capable and blocking constructs, each a necessary condition of the property: (1) a value returned together with an error is dereferenced only after that error was tested nil (or the value itself non-nil) on every path; (6) pointer fields an external successful parse may leave nil (RevocationList.Number, ocsp.Response.Certificate) are tested before use; (2) every index and slice expression of product code is discharged by a bounds rule (length guard, range key, for-loop counter, x[i+1] under i != len-1 or over x[:len-1], x[len-1] under non-empty, slices.Index result tested), if necessary in the context of all callers; every single-value type assertion is dominated by a successful comma-ok test of the same value or covered by the registry typing rule; interface-keyed map use is preceded by a type restriction; explicit panics are only in init, on a nil argument, or the re-raise of a forwarded goroutine panic; (3) every goroutine defers a recover that forwards the value and the spawner re-raises it; (4) every response body is read through io.LimitReader with a constant bound, requests are built only with NewRequestWithContext, and every context argument derives from the caller's context; (5) every non-range loop makes progress on each cycle (a tested variable is reassigned from a consuming call, or a consuming read on it succeeded)."
 	c.Assume = append(c.Assume, "the heap object behind a pointer is not resized by another goroutine between a bounds guard and the access", "revocation.Validator implementations honour the documented contract only where the code does not re-check it")
+	for k, v := range decodedStructFields(c) {
+		optionalFields[k] = v
+	}
 	sc := censusSites(c)
 	funcs := c.P.productFuncs()
 	// pass 1: every product function as its own root, in-module callees opaque
